@@ -137,6 +137,9 @@ class Device:
         self.mod = f"d_{fe}_{gi}"
         self.regs = [(f"RegOwn{tag(o)}", o) for o in OPT]
         self.refs = [(f"Ref{tag(t)}To{'Keep' if o is None else tag(o)}", f"RegOwn{tag(t)}", t, o) for t in OPT for o in OPT]
+        # a second ref WITHOUT access override to every target, declared after the refs that do override it: what one ref
+        # overrides is that ref's business only (seed C17-7: a shared ref-target cache carried the override on)
+        self.refs += [(f"Ref{tag(t)}ToKeepLate", f"RegOwn{tag(t)}", t, None) for t in OPT]
         # registers nobody refers to (the RegOwn* ones are all re-opened by some ref that overrides the access)
         self.lone = [(f"LoneOwn{tag(o)}", o) for o in OPT]
         self.bufs = [(f"BufOwn{tag(o)}", o) for o in OPT]
